@@ -96,14 +96,14 @@ def frames(rng, nframes, declare=True, maxw=8, maxh=5, mismatch=False):
                 e = tg.element(rng, prev)
             cells[(x, y)] = e
             prev = e
-            parts.append(px(x, y, e, rng.choice(["px", "px", "px", "pi", "pr"])))
+            parts.append(px(x, y, e, rng.choice(["px", "px", "px", "pi", "pr", "pe"])))
         parts.append("dr")
         if rng.random() < 0.15:
             parts.append("dr")                                # same canvas again
         if rng.random() < 0.2:
             # the application also talks to the terminal itself between two draws (nothing that prints)
             for _ in range(rng.choice([1, 1, 2, 3])):
-                parts.append(rng.choice(["t sv", "t rs", "t hc", "t sc", "t mv %d %d" % (rng.randrange(w), rng.randrange(h)),
+                parts.append(rng.choice(["t sv", "t rs", "t hc", "t sc", "t cl", "t rv", "t mv %d %d" % (rng.randrange(w), rng.randrange(h)),
                                          "t mv %d %d" % (w - 1, h - 1), "t mv 0 0"]))
     return " ; ".join(parts)
 
@@ -177,4 +177,84 @@ def glyph_byte_edits(cfgs):
                     line = "S 0 ; tsz 3 2 ; cv 3 2 ; %s ; dr ; %s ; dr ; %s ; dr" % (px(1, 0, a + attr), px(1, 0, b + attr), px(1, 0, a + attr))
                     out.append((line, [cfgs[k % len(cfgs)]]))
                     k += 1
+    return out
+
+
+def padded_rows(rng, n):
+    """rows that END in a run of blanks carrying an attribute (coloured / underlined / reversed padding) on canvases at least
+    8 cells wide, redrawn over several frames with the padding's length and attribute changing: what an 'erase the rest of
+    the line instead of repainting it' shortcut gets wrong"""
+    out = []
+    pads = [tg.DEFAULT_ATTR, [0, 9, 0, 0, 0, 1, 0, 0, 22, 24, 27, 25], [0, 9, 0, 0, 0, 9, 0, 0, 22, 4, 27, 25],
+            [0, 9, 0, 0, 0, 9, 0, 0, 22, 24, 7, 25], [0, 4, 0, 0, 3, 10, 100, 200, 1, 24, 27, 25]]
+    for _ in range(n):
+        w = rng.choice([8, 9, 10, 12, 16, 20, 33])
+        h = rng.choice([1, 2, 3])
+        parts = ["S %d" % rng.choice([0, 0, 16]), "tsz %d %d" % (w, h), "cv %d %d" % (w, h)]
+        for f in range(rng.choice([1, 2, 3])):
+            for y in range(h):
+                if f > 0 and rng.random() < 0.3:
+                    continue
+                k = rng.choice([0, 1, w - 8, w - 9, w - 7, rng.randrange(0, w + 1)])
+                k = max(0, min(w, k))
+                pad = rng.choice(pads + [tg.attr(rng)])
+                blank = rng.choice([[5, 32, 0, 0], [5, 32, 0, 0], [5, 32, 0x55, 0xAA], [18, 32, 0, 0], [0, 32, 0, 0]])
+                la = rng.choice([pad, tg.DEFAULT_ATTR, tg.attr(rng)])
+                for x in range(k):
+                    parts.append(px(x, y, [5, 65 + (x + y) % 26, 0, 0] + list(la)))
+                odd = rng.randrange(k, w) if k < w and rng.random() < 0.3 else -1
+                for x in range(k, w):
+                    parts.append(px(x, y, blank + list(pad if x != odd else rng.choice(pads))))
+            parts.append("dr")
+        out.append(" ; ".join(parts))
+    return out
+
+
+def wide_runs(rng, tier="quick"):
+    """canvases more than 256 cells wide in which runs of 255, 256, 257 and more ADJACENT cells change between two frames
+    (same attribute along the run, or alternating): what a run-length / batching shortcut with a byte-sized counter gets wrong"""
+    out = []
+    shapes = [(300, 1), (258, 2)] if tier != "thorough" else [(300, 1), (258, 2), (600, 1), (520, 2), (1030, 1)]
+    for (w, h) in shapes:
+        for n in (255, 256, 257, w, 2 * 256 + 1):
+            if n > w * h:
+                continue
+            for alt in (False, True):
+                x0 = rng.choice([0, 1, w - n if n <= w else 0])
+                x0 = max(0, x0)
+                parts = ["S %d" % rng.choice([0, 16]), "tsz %d %d" % (w, h), "cv %d %d" % (w, h)]
+                a1 = tg.DEFAULT_ATTR
+                a2 = [0, 1, 0, 0, 0, 9, 0, 0, 22, 24, 27, 25]
+                for i in range(w * h):
+                    parts.append(px(i % w, i // w, [5, 65 + i % 26, 0, 0] + a1))
+                parts.append("dr")
+                for i in range(x0, min(w * h, x0 + n)):
+                    parts.append(px(i % w, i // w, [5, 97 + i % 26, 0, 0] + (a2 if (alt and i % 2) else a1)))
+                parts.append("dr")
+                parts.append("dr")
+                out.append(" ; ".join(parts))
+    return out
+
+
+def mode_frames(rng, n):
+    """screen scripts in which cursor-visibility requests are streamed to the screen's terminal around draws that repaint
+    many cells at once (first paints and full changes of canvases of 20 to 130 cells): a draw is not a mode request"""
+    out = []
+    for _ in range(n):
+        w, h = rng.choice([(5, 4), (10, 8), (16, 5), (9, 9), (79, 1), (80, 1), (81, 1), (13, 10), (40, 2), (rng.randrange(2, 14), rng.randrange(2, 10))])
+        parts = ["S %d" % rng.choice([0, 0, 16]), "tsz %d %d" % (w, h), "cv %d %d" % (w, h)]
+        if rng.random() < 0.8:
+            parts.append(rng.choice(["t hc", "t hc", "t sc"]))
+        for f in range(rng.choice([1, 2, 3])):
+            if f and rng.random() < 0.5:
+                parts.append(rng.choice(["t hc", "t sc", "t sv", "t cl", "t rv"]))
+            k = rng.choice([w * h, w * h, 79, 80, 81, 1, rng.randrange(1, w * h + 1)])
+            a = tg.attr(rng) if rng.random() < 0.5 else tg.DEFAULT_ATTR
+            ch = 65 + rng.randrange(26)
+            start = rng.randrange(w * h)
+            for i in range(min(k, w * h)):
+                j = (start + i) % (w * h)
+                parts.append(px(j % w, j // w, [5, ch, 0, 0] + list(a)))
+            parts.append("dr")
+        out.append(" ; ".join(parts))
     return out
